@@ -555,8 +555,25 @@ def o5_o6_termination(ctx):
     root_ctor = [f for f in F.values() if f.get('ctor') and f.get('cls') == 'Teakra::Teakra::Impl']
     ctx.require(len(root_ctor) == 1, 'Teakra::Impl constructor not found')
     bound = set()
-    for st in root_ctor[0]['body'].get('body', []):
-        if st.get('k') == 'call' and st.get('fn') in F:
+    def top_calls(stmts):
+        """calls that run on every execution of the constructor: top-level statements, and the bodies of loops that run at
+           least once (range-for over a fixed-size array member, counting loops with a non-empty constant range)"""
+        from ..loops import loop_range
+        for st in stmts:
+            if st.get('k') == 'call':
+                yield st
+            elif st.get('k') == 'block':
+                yield from top_calls(st.get('body', []))
+            elif st.get('k') == 'rangefor' and 'std::array<' in str((st.get('range') or {}).get('t', '')):
+                b_ = st.get('body') or {}
+                yield from top_calls(b_.get('body', []) if b_.get('k') == 'block' else [b_])
+            elif st.get('k') == 'for':
+                rng = loop_range(root_ctor[0], st)
+                if rng and len(range(rng[1], rng[2], rng[3])) > 0:
+                    b_ = st.get('body') or {}
+                    yield from top_calls(b_.get('body', []) if b_.get('k') == 'block' else [b_])
+    for st in top_calls(root_ctor[0]['body'].get('body', [])):
+        if st.get('fn') in F:
             setter = F[st['fn']]
             for p, n, how in direct_writes(setter.get('body')):
                 bound.add((p[0], p[1]))
